@@ -86,6 +86,58 @@ def _plain(v):
     return v
 
 
+class HarnessDrift(Exception):
+    """The library's private layout is not the one the harness knows how to instrument (a private attribute was renamed or replaced):
+    what depends on it cannot be run.  Reported as DESIGN-DRIFT (a notice), never as a violation or a failure of the check."""
+
+
+def _is_lock(v):
+    return hasattr(v, 'acquire') and hasattr(v, 'release')
+
+
+def _pick_lock(obj, preferred, keywords, what):
+    if hasattr(obj, preferred):
+        return preferred
+    cands = [k for k, v in vars(obj).items() if _is_lock(v)]
+    named = [k for k in cands if any(w in k.lower() for w in keywords)]
+    if len(named) == 1:
+        return named[0]
+    if len(cands) == 1 and not named:
+        return cands[0]
+    raise HarnessDrift('cannot tell which attribute of %s is the %s lock (candidates: %s)' % (type(obj).__name__, what, cands))
+
+
+def lock_names(device):
+    """Names of the three locks: (id lock on the device, transport lock and store lock on the I/O manager).  The documented names first;
+    after a rename, the attributes that hold lock objects, told apart by what their names say."""
+    io = device._io_manager
+    return (_pick_lock(device, '_local_id_lock', ('id',), 'stream id'), _pick_lock(io, '_transport_lock', ('transport', 'wire', 'io'), 'transport'),
+            _pick_lock(io, '_store_lock', ('store', 'packet', 'queue'), 'packet store'))
+
+
+def locks_of(device):
+    i, t, s_ = lock_names(device)
+    return getattr(device, i), getattr(device._io_manager, t), getattr(device._io_manager, s_)
+
+
+def set_locks(device, factory):
+    i, t, s_ = lock_names(device)
+    setattr(device, i, factory())
+    setattr(device._io_manager, t, factory())
+    setattr(device._io_manager, s_, factory())
+
+
+def set_available(device, value=True):
+    """Mark a device object as connected without a handshake (the flag behind the `available` property)."""
+    if hasattr(device, '_available'):
+        device._available = value
+        return
+    cands = [k for k, v in vars(device).items() if isinstance(v, bool) and 'avail' in k.lower()]
+    if len(cands) != 1:
+        raise HarnessDrift('cannot tell which attribute of %s backs `available` (candidates: %s)' % (type(device).__name__, cands))
+    setattr(device, cands[0], value)
+
+
 class LockLeak(Exception):
     """A lock was requested while still held by an earlier call of this single-threaded session: it was leaked."""
 
